@@ -419,4 +419,19 @@ theorem C14_cause_survives_failed_push_witness :
     bootstrap (signalAfterFinalize false true .timeout) = .failed ∧ finalState .timeout = .done
     ∧ bootstrap (signalAfterFinalize true true .timeout) = .done := by decide
 
+/-! ### a crashed agent is a failed job (round 18) -/
+
+/-- **C14, FAILED otherwise - also for the batch system**: with the exit code of the agent collected right after the `wait`
+    (`Gen.bootstrapCollectsAgentCode`, read from bootstrap_0.sh), a pilot whose agent died without writing a final state
+    ends FAILED and its job carries the agent's exit code: non-zero whenever the agent's was -/
+theorem C14_crashed_agent_failed_job (agentCode : Nat) (h : 0 < agentCode) :
+    bootstrap none = .failed ∧ jobExit Gen.bootstrapCollectsAgentCode none agentCode = agentCode
+    ∧ 0 < jobExit Gen.bootstrapCollectsAgentCode none agentCode := by
+  have e : Gen.bootstrapCollectsAgentCode = true := by decide
+  rw [e]
+  exact ⟨rfl, rfl, h⟩
+
+/-- with an `echo` between the `wait` and `$?` the crashed pilot's job would exit 0 - DONE for the launcher -/
+theorem C14_crashed_agent_witness : jobExit false none 3 = 0 ∧ jobExit true none 3 = 3 ∧ jobExit true (some .done) 143 = 0 := by decide
+
 end RPVerif.C14
